@@ -17,8 +17,9 @@ func init() {
 				"C02.order (pending rounds iterated in the order of a list every writer of which sorts it ascending by Index with <; processing requires Decided and an undecided round leaves the loop), " +
 				"C02.once (after the callback for round r, every path to the next iteration or to a return appends r to the processed list, and the deferred Clean runs on every exit: a committed round is never processed again), " +
 				"C02.copy (the bytes that end up in a delivered block are the node's own copy of what the application submitted — an in-process application that reuses its buffer cannot change a stored block; shared with C05.copy), C02.shared (the payload slices of stored and delivered records — block body, frame, event body, root — are never sorted, copied into or element-assigned in place, by anybody: the argument is traced through calls back to the field of an existing record), C02.frozen (writers of BlockBody fields and Block.Signatures; who may reach Store.SetBlock), C02.persist (in core.commit the block is stored again after the application's state hash and receipts were written into it, on every success path). " +
+				"C02.pass (the socket proxy hands back a freshly decoded reply for every block: a reply buffer kept between calls would let a later block overwrite the receipts stored for an earlier one; shared with C20.pass). " +
 				"NOT decided: what the store returns after LRU eviction in general (C16), behaviour when the application's commit fails, late-arriving witnesses."},
-		Rules: []ruleFunc{c02single, c02index, c02order, c02once, c02frozen, c02persist, func(p *Prog, r *Report) { sharedSliceRule(p, r, "C02.shared") }, func(p *Prog, r *Report) { submitCopyRule(p, r, "C02.copy") }},
+		Rules: []ruleFunc{c02single, c02index, c02order, c02once, c02frozen, c02persist, func(p *Prog, r *Report) { sharedSliceRule(p, r, "C02.shared") }, func(p *Prog, r *Report) { submitCopyRule(p, r, "C02.copy") }, func(p *Prog, r *Report) { passRule(p, r, "C02.pass") }},
 	})
 }
 
